@@ -8,6 +8,7 @@ require (
 	github.com/marekgalovic/anndb v0.0.0
 	github.com/satori/go.uuid v1.2.0
 	github.com/sirupsen/logrus v1.5.0
+	google.golang.org/grpc v1.28.0
 )
 
 replace github.com/marekgalovic/anndb => /repo
